@@ -178,7 +178,7 @@ Qed.
 Lemma fa_init_ext fuel ffuel r r' ir : fa_init fuel ffuel r = (r', ir) ->
   Ext r r' /\ seqpos r' = seqpos r.
 Proof.
-  unfold fa_init. destruct (fa_first_byte fuel ffuel r 0) as [r1 fb] eqn:Ef.
+  unfold fa_init. destruct (fa_first_byte fuel ffuel r (pline r)) as [r1 fb] eqn:Ef.
   destruct (fa_first_byte_ext _ _ _ _ _ _ Ef) as [E1 Hs1].
   assert (Hset : forall r2, log r2 = log r1 -> cap r2 = cap r1 -> polf r2 = polf r1 ->
                             polh r2 = polh r1 -> seqpos r2 = seqpos r1 ->
@@ -232,7 +232,7 @@ Qed.
 
 Lemma fa_init_extR fuel ffuel r r' ir : fa_init fuel ffuel r = (r', ir) -> ExtR r r'.
 Proof.
-  unfold fa_init. destruct (fa_first_byte fuel ffuel r 0) as [r1 fb] eqn:Ef.
+  unfold fa_init. destruct (fa_first_byte fuel ffuel r (pline r)) as [r1 fb] eqn:Ef.
   pose proof (fa_first_byte_extR _ _ _ _ _ _ Ef) as E1.
   assert (Hset : forall r2, log r2 = log r1 -> cap r2 = cap r1 -> polf r2 = polf r1 ->
                             polh r2 = polh r1 -> seqpos r2 = seqpos r1 -> ExtR r r2).
